@@ -124,6 +124,7 @@ class Engine:
         if ex.depth > MAX_DEPTH:
             raise Unsupported("inlining depth exceeded at %s" % fn.get("qn"))
         ex.depth += 1
+        ex.fstack.append(rint.fn_name(fn))
         try:
             ex.exec(fn["body"], new)
             return None
@@ -131,6 +132,7 @@ class Engine:
             return r.v
         finally:
             ex.depth -= 1
+            ex.fstack.pop()
 
     def this_of(self, ex, n, fr):
         objn = n.get("obj")
@@ -449,7 +451,7 @@ def bi_memcpy(eng, ex, n, fr, c, args):
         ex.event("read", src, cnt)
         if not cnt.is_const():
             raise Unsupported("memcpy of symbolic length into a local")
-        set_local_bytes(ex, dst, Lin.atom(("wire", src, cnt.k, False)))
+        set_local_bytes(ex, dst, ex.wire(src, cnt.k, False))
     elif isinstance(dst, Lin) and isinstance(src, Ptr):
         ex.event("write", dst, cnt, local_bytes(ex, src, cnt))
     elif isinstance(dst, Ptr) and isinstance(src, Ptr):
@@ -503,7 +505,7 @@ def range_data(ex, first, ln, rev=False):
     if isinstance(first, Lin):
         ex.event("read", first, ln)
         if ln.is_const():
-            return Lin.atom(("wire", first, ln.k, rev and ln.k > 1))
+            return ex.wire(first, ln.k, rev and ln.k > 1)
         return ("range", first, ln, rev)
     if isinstance(first, Ptr):
         v = local_bytes(ex, first, ln)
